@@ -259,6 +259,8 @@ func TestRun(t *testing.T) {
 	collect()
 	slowPingWrite(rec, vr.Scale(30, 300))
 	collect()
+	heldAcrossClose(rec, vr.Scale(36, 360))
+	collect()
 	rel, reuse, checked, poisoned := pool.VerifTrackerStats()
 	rec.Count("tracker_releases_observed", rel)
 	rec.Count("tracker_reuses_of_released_objects", reuse)
